@@ -70,6 +70,11 @@ var updateRefCmd = &cobra.Command{
 			return fmt.Errorf("fail to update reference %s: %w", args[0], err)
 		}
 
+		// updating another branch does not switch to it
+		if branchName != client.Head.Reference {
+			return nil
+		}
+
 		if err := client.Head.Update(client.Refs, client.RootGoitPath, branchName); err != nil {
 			return fmt.Errorf("fail to update HEAD: %w", err)
 		}
